@@ -31,19 +31,29 @@ package console
 
 //vc:func (*Conn).Send
 //vc:  requires[C11] sendAllowed(isCompareRun, loginPass, cmd)
+//vc:  requires[C09] @nothingSentAfterAbort !panicking() || cleanupCmd(cmd)
+//vc:  set pendingReplies = pendingReplies + ite(strings.Cut$1(cmd, "\n") != "", 2, 1)
+//vc:  ensures[C09] pendingReplies == old(pendingReplies) + ite(strings.Cut$1(cmd, "\n") != "", 2, 1)
 
 //vc:func (*Conn).IssueCmd
 //vc:  requires[C11] sendAllowed(isCompareRun, loginPass, cmd)
+//vc:  requires[C09] @nothingSentAfterAbort !panicking() || cleanupCmd(cmd)
 //vc:  set lastOutput = result
+//vc:  set lastCmd = cmd
 //vc:  ensures[C06] lastOutput == result
+//vc:  ensures[C09] lastOutput == result && lastCmd == cmd
 
 //vc:func (*Conn).SendCmd
 //vc:  requires[C11] sendAllowed(isCompareRun, loginPass, cmd)
+//vc:  requires[C09] @nothingSentAfterAbort !panicking() || cleanupCmd(cmd)
 
 //vc:func (*Conn).GetCmdOutput
 //vc:  requires[C11] sendAllowed(isCompareRun, loginPass, cmd)
+//vc:  requires[C09] @nothingSentAfterAbort !panicking() || cleanupCmd(cmd)
 //vc:  set lastOutput = result
+//vc:  set lastCmd = cmd
 //vc:  ensures[C06] lastOutput == result
+//vc:  ensures[C09] lastOutput == result && lastCmd == cmd
 
 // C06 interlocks (ghost; assigned false at entry of device.ApproveOrCompare):
 // nameChecked   - the device reported the expected hostname (checkedName)
@@ -53,3 +63,21 @@ package console
 //vc:ghost var checkedName string
 //vc:ghost var markerMissing bool
 //vc:ghost var haActive bool
+
+// C09 ghost state of the dialogue
+// lastCmd       - the command whose output lastOutput is
+// pendingReplies - commands sent whose reply (echo + output + prompt) has not been read yet
+// lastRemainder - what StripEcho returned last (output of a command without its echo)
+//vc:ghost var lastCmd string
+//vc:ghost var pendingReplies int
+//vc:ghost var lastRemainder string
+// After a deliberate abort only session clean-up may be sent.
+//vc:spec func cleanupCmd(c string) bool = c == "end" || c == "reload cancel" || c == "" || c == "exit"
+
+//vc:func (*Conn).GetOutput
+//vc:  set pendingReplies = pendingReplies - 1
+//vc:  ensures[C09] pendingReplies == old(pendingReplies) - 1
+
+//vc:func (*Conn).StripEcho
+//vc:  set lastRemainder = result
+//vc:  ensures[C09] lastRemainder == result
